@@ -38,7 +38,7 @@ fn scenario_encode(rep: &mut Report, rng: &mut Rng) {
     // fault-free run: reference bytes and call counts
     let mut m0 = Mem::new();
     if let Err(e) = encode_into(&mut m0, &cfg, front, &pcm, &[]) {
-        rep.violation("encode-error", format!("encode-error:{}", err_name(&e.err)), format!("{e:?}"), J::obj().set("cfg", cfg.to_json()));
+        rep.violation("encode-error", format!("encode-error:{}", err_name(&e.err)), crate::api::show(&e), J::obj().set("cfg", cfg.to_json()));
         return;
     }
     let reference = m0.data.clone();
@@ -139,7 +139,7 @@ fn scenario_write_blocks(rep: &mut Report, rng: &mut Rng) {
                 let obs = mon::observe(|| {
                     let mut m = Mem::new().with_fault(fault);
                     let r = metadata::write_blocks(&mut m, bl.blocks());
-                    (r.map_err(|e| format!("{e:?}")), m)
+                    (r.map_err(|e| crate::api::show(&e)), m)
                 });
                 let replay = || J::obj().set("scenario", "write_blocks").set("fault", fault_json(&fault)).set("reference", J::hex(&reference));
                 match obs.result {
@@ -209,9 +209,15 @@ fn scenario_update(rep: &mut Report, rng: &mut Rng) {
         bl.update::<flac_codec::metadata::VorbisComment>(|vc| vc.set("TITLE", &value));
         Ok(())
     };
-    rep.case_begin(&format!("update_file pad {pad:?} value_len {value_len}"));
+    // the original hands out at most `max_read` bytes per read call in three quarters of the cases
+    // (a buffered reader otherwise swallows a small file in one read and the frame copy of the
+    // rebuild path never touches the file object again, leaving no read fault point inside it)
+    let max_read = *rng.pick(&[0usize, 64, 300, 1000]);
+    rep.count("update_source_max_read", max_read);
+    rep.case_begin(&format!("update_file pad {pad:?} value_len {value_len} max_read {max_read}"));
     // fault-free
     let mut orig = Mem::with_data(file.clone());
+    orig.max_read = max_read;
     let mut rebuilt0 = Mem::new();
     let r0 = {
         let rb = &mut rebuilt0;
@@ -220,7 +226,7 @@ fn scenario_update(rep: &mut Report, rng: &mut Rng) {
     let rebuilt_flag = match r0 {
         Ok(b) => b,
         Err(e) => {
-            rep.violation("update-error", "update-failed-without-fault", format!("{e:?}"), J::Null);
+            rep.violation("update-error", "update-failed-without-fault", crate::api::show(&e), J::Null);
             return;
         }
     };
@@ -247,6 +253,7 @@ fn scenario_update(rep: &mut Report, rng: &mut Rng) {
                     rep.eval();
                     let obs = mon::observe(|| {
                         let mut o = Mem::with_data(file.clone());
+                        o.max_read = max_read;
                         let mut rb = Mem::new();
                         if target == "original" {
                             o.fault = Some(fault);
@@ -257,9 +264,9 @@ fn scenario_update(rep: &mut Report, rng: &mut Rng) {
                             let rbr = &mut rb;
                             metadata::update_file(&mut o, move || Ok(rbr), edit)
                         };
-                        (r.map_err(|e| format!("{e:?}")), o, rb)
+                        (r.map_err(|e| crate::api::show(&e)), o, rb)
                     });
-                    let replay = || J::obj().set("scenario", "update_file").set("file", J::hex(&file)).set("value_len", value_len).set("target", target).set("fault", fault_json(&fault));
+                    let replay = || J::obj().set("scenario", "update_file").set("file", J::hex(&file)).set("value_len", value_len).set("max_read", max_read).set("target", target).set("fault", fault_json(&fault));
                     match obs.result {
                         Err(p) => rep.violation("panic", p.signature(), format!("update_file fault on {target} {fault:?}: {} at {}", p.msg, p.location), replay()),
                         Ok((Ok(flag), o, rb)) => {
@@ -348,7 +355,7 @@ fn scenario_read(rep: &mut Report, rng: &mut Rng) {
             let r = mon::guard(|| {
                 let mut m = Mem::with_data(file.clone()).with_fault(fault);
                 m.max_read = 7;
-                flac_codec::decode::verify_reader(&mut m).map_err(|e| format!("{e:?}"))
+                flac_codec::decode::verify_reader(&mut m).map_err(|e| crate::api::show(&e))
             });
             match r {
                 Err(p) => rep.violation("panic", p.signature(), p.msg.clone(), J::Null),
@@ -389,7 +396,7 @@ fn encode_unfinalized(cfg: &EncCfg, front: Front, pcm: &[i32], m: &mut Mem) -> R
     use flac_codec::encode::*;
     use std::io::Write;
     let opts = make_options(cfg).map_err(|e| EncErr { stage: "options", err: e })?;
-    let e = |stage: &'static str| move |e: flac_codec::Error| EncErr { stage, err: format!("{e:?}") };
+    let e = |stage: &'static str| move |e: flac_codec::Error| EncErr { stage, err: crate::api::show(&e) };
     let ch = cfg.channels as usize;
     match front {
         Front::Sample | Front::ByteBE => {
@@ -429,7 +436,7 @@ fn c14_case(rep: &mut Report, rng: &mut Rng, thorough: bool) {
             return;
         }
         Ok(Err(e)) => {
-            rep.violation("encode-error", format!("encode-error:{}", err_name(&e.err)), format!("{e:?}"), J::obj().set("cfg", cfg.to_json()));
+            rep.violation("encode-error", format!("encode-error:{}", err_name(&e.err)), crate::api::show(&e), J::obj().set("cfg", cfg.to_json()));
             return;
         }
         Ok(Ok(())) => {}
